@@ -245,6 +245,20 @@ CHECKS = {
         "Hypothesis content generation with an independent byte-level encoder; decoded-packet equality (differential against hand-written layouts)",
         "DESIGN.md 4/C13",
     ),
+    "C12": (
+        "exploration",
+        "ControllerApplication.send_packet() on a virtual clock against a simulated NCP (versions 4, 8, 13, 14; thorough 4..14): "
+        "Hypothesis plans of 1-6 overlapping requests to distinct devices (unicast plain / source-routed / extended-timeout, "
+        "IEEE-addressed known and unknown, multicast, broadcast) with per-attempt enqueue statuses (accepted, each busy code of "
+        "the version's status family, refusals incl. undefined codes) and per-request confirmation behaviour (success, failure, "
+        "none, duplicate, before the enqueue reply, wrong tag, wrong destination, wrong-then-right, late) plus unsolicited "
+        "confirmations. A reference computes outcome, attempt count and retry spacing from the plan; TimeoutError not before "
+        "120 s after acceptance; a successful unicast never returns before its own (destination, tag) success confirmation; "
+        "no pending entry is left; no other request's frame lies between a request's first set-up frame and its send frame.",
+        "Application built with the zigpy.util.Requests shim (entry removal is the shim's context manager); confirmations encoded by hand-written layouts.",
+        "Hypothesis schedule/fault plans against a simulated NCP on a virtual clock; reference outcome function + frame-log invariants",
+        "DESIGN.md 4/C12",
+    ),
 }
 
 NOT_YET = "check not built yet in this session (planned, see DESIGN.md section 4)"
